@@ -306,6 +306,22 @@ func c10LawRepl(c c10Case, cls string, after []string) c10Verdict {
 	return c10JudgeObjs(c10Spec{Repls: c.Repls}, c.Docs, cls, after, "replacement")
 }
 
+// c10LawReplEncodable: what a replacement writes is a well-formed value — the documents the filter returns
+// can be encoded. The one listed shape (finding C10/replacement-keeps-target-tag-not-encodable): a scalar
+// target keeps its tag (!!null, !!int, !!bool, !!float) and receives a text that is not of that type.
+var c10KeptTagRe = regexp.MustCompile("cannot decode !!\\w+ `.*` as a !!(null|int|bool|float)")
+
+func c10LawReplEncodable(c c10Case, noEnc string) c10Verdict {
+	if noEnc == "" {
+		return c10Verdict{}
+	}
+	class := "C10/replacement-output-not-encodable"
+	if c10KeptTagRe.MatchString(noEnc) {
+		class = "C10/replacement-keeps-target-tag-not-encodable"
+	}
+	return c10Verdict{true, class, "written_value_well_formed", "the replacement succeeded but its result cannot be encoded: " + noEnc}
+}
+
 func c10LawSplit(c c10Case, got []string) c10Verdict {
 	want, ok := c10SplitPath(c.PathS)
 	if !ok || strings.Contains(c.PathS, "[[") || strings.Contains(c.PathS, "]]") || strings.Contains(c.PathS, "[]") {
